@@ -110,11 +110,35 @@ def enc_id(r):
     return f"3 {r[1]}"
 
 
+def cb_style(cb):
+    """callback spec of a send: 0 none / 1 callback= / ["u", ops] callback= whose user code performs
+    ops / ["d", ops] future.add_done_callback(...) whose user code performs ops.
+    ops: ["c", h] cancel future h; ["s", mi, mid] send a follow-up (its callback: the rest)."""
+    if not cb:
+        return None, []
+    if cb == 1:
+        return "u", []
+    return cb[0], cb[1]
+
+
+def enc_cb(cb):
+    style, ops = cb_style(cb)
+    if style is None:
+        return "0"
+    out = ["1" if style == "u" else "2", str(len(ops))]
+    for op in ops:
+        if op[0] == "c":
+            out.append(f"0 {op[1]}")
+        else:
+            out.append(f"1 {op[1]} {METHODS[op[1]][1]} " + ("0" if op[2] is None else "1 " + enc_id(op[2])))
+    return " ".join(out)
+
+
 def enc_ev(e):
     k = e[0]
     if k == "send":
-        _, mi, cb, mid, _req = e
-        return f"0 {mi} {METHODS[mi][1]} {int(bool(cb))} " + ("0" if mid is None else "1 " + enc_id(mid))
+        _, mi, cb, mid, _req = e[:5]
+        return f"0 {mi} {METHODS[mi][1]} {enc_cb(cb)} " + ("0" if mid is None else "1 " + enc_id(mid))
     if k == "res":
         o = oks(e[2])
         return f"1 {enc_id(e[1])} {e[2]} {len(o)} " + " ".join(map(str, o))
@@ -350,6 +374,35 @@ async def _run_script(case, loop):
     def requests_written():
         return [f for f in ep.writer.frames if "method" in f and "id" in f]
 
+    cb_errors = []
+
+    def make_cb(ops, style, owner):
+        """User code of a callback (style u: callback=, gets the result; d: add_done_callback, gets
+        the future): it calls back into the protocol while the future is being settled."""
+        def cb(arg):
+            try:
+                if style == "u":
+                    owner.calls.append(canon_value(arg))
+                for j, op in enumerate(ops):
+                    if op[0] == "c":
+                        if op[1] < len(reqs) and reqs[op[1]].fut is not None:
+                            reqs[op[1]].fut.cancel()
+                        continue
+                    _, mi2, mid2 = op
+                    rq2 = _Req("p")
+                    reqs.append(rq2)
+                    kw2 = {} if mid2 is None else {"msg_id": mid2[1]}
+                    if style == "u":
+                        rq2.fut = proto.send_request(METHODS[mi2][0], method_params(mi2),
+                                                     callback=make_cb(ops[j + 1:], "u", rq2), **kw2)
+                    else:
+                        rq2.fut = proto.send_request(METHODS[mi2][0], method_params(mi2), **kw2)
+                        rq2.fut.add_done_callback(make_cb(ops[j + 1:], "d", rq2))
+                    return
+            except BaseException as exc:       # the Future machinery would swallow it
+                cb_errors.append(repr(exc))
+        return cb
+
     try:
         for e in case["evs"]:
             k = e[0]
@@ -377,19 +430,25 @@ async def _run_script(case, loop):
                 kw = {}
                 if mid is not None:
                     kw["msg_id"] = mid[1]
+                style, ops = cb_style(cb)
+                ucb = make_cb(ops, style, rq) if style is not None else None
                 if kind == "a":
-                    async def waiter(rq=rq, method=method, params=params, kw=kw):
+                    async def waiter(rq=rq, method=method, params=params, kw=kw, ucb=ucb):
                         rq.fut = proto.send_request_async(method, params, **kw)
+                        if ucb is not None:
+                            rq.fut.add_done_callback(ucb)
                         return await rq.fut
                     rq.task = loop.create_task(waiter())
                     await _spin(2)
                 else:
-                    if cb:
-                        kw["callback"] = (lambda rq: lambda result: rq.calls.append(canon_value(result)))(rq)
+                    if style == "u":
+                        kw["callback"] = ucb
                     if kind == "t":
-                        def blocked(rq=rq, method=method, params=params, kw=kw):
+                        def blocked(rq=rq, method=method, params=params, kw=kw, style=style, ucb=ucb):
                             try:
                                 rq.fut = proto.send_request(method, params, **kw)
+                                if style == "d":
+                                    rq.fut.add_done_callback(ucb)
                             finally:
                                 rq.sent.set()
                             while True:
@@ -416,9 +475,11 @@ async def _run_script(case, loop):
                             done.set()
                     else:
                         rq.fut = proto.send_request(method, params, **kw)
+                        if style == "d":
+                            rq.fut.add_done_callback(ucb)
                 written = requests_written()
                 if mid is None and len(written) > before:
-                    uuids.append(written[-1]["id"])
+                    uuids.append(written[before]["id"])      # (follow-ups sent by callbacks come after it)
             elif k == "res":
                 ep.feed(reply_obj(real_id(e[1]), ["res", e[2]]))
             elif k == "err":
@@ -477,6 +538,8 @@ async def _run_script(case, loop):
                 if d[0] != 1 or c != d[1]:
                     final[reqs.index(rq)] = [d, n, "callback-got-foreign-value"]
         out = [[canon_id(f["id"]), f["method"]] for f in requests_written()]
+        if cb_errors:
+            return ["raise", "callback-user-code", cb_errors[:2]]
         return {"trace": trace, "final": final, "seen": seen, "out": out}
     finally:
         for rq in reqs:
@@ -515,8 +578,11 @@ def wellformed(case):
             nsend += 1
             if e[3] is None:
                 nuu += 1
-            if e[4] == "a" and e[2]:
+            style, ops = cb_style(e[2])
+            if e[4] == "a" and style == "u":
                 return False
+            if any(op[0] == "s" and op[2] is None for op in ops):
+                return False                      # follow-ups carry explicit ids (uuid numbering stays static)
             if len(e) > 5 and e[5] is not None and e[5][0] == "l" and e[4] != "t":
                 return False
         elif k == "cancel":
@@ -546,7 +612,8 @@ class C05(core.Property):
     obligations = ["inv_init", "inv_step", "inv_run", "ids_distinct", "resp_frame", "first_response_wins",
                    "future_monotone", "future_monotone_run", "callback_iff_resolved", "stray_dup_noop",
                    "error_always_fails", "result_resolves", "class_of_code_spec", "guard_sound",
-                   "reference_agrees", "reply_during_write", "registered_before_write", "reply_order_irrelevant", "C05_partial", "C05", "C05_permutation", "C05_refuted_shared_tables", "C05_refuted_code_range", "C05_refuted",
+                   "reference_agrees", "step_with_trig", "exec_flat", "rstep_flat", "rrun_flat",
+                   "reentrant_first_response_wins", "C05_reentrant", "reentrant_poll", "reply_during_write", "registered_before_write", "reply_order_irrelevant", "C05_partial", "C05", "C05_permutation", "C05_refuted_shared_tables", "C05_refuted_code_range", "C05_refuted",
                    "C05_outside_invalid_result", "C05_nonvacuous", "C16_outgoing", "rtypes_sub", "K_step"]
     coq_targets = ["Props/C05.vo", "Extract/ExtractC05.vo"]
     rule = ("scripted histories over the real protocol object: k <= 6 outstanding requests over 8 methods "
@@ -608,6 +675,46 @@ class C05(core.Property):
                         if pre:
                             evs.append(["err", ["u", 0], 1, 1, 0])
                         cases.append({"evs": evs})
+        # (1c) re-entrant user code: a callback (callback= / add_done_callback) re-sends with the id
+        #      that has just been answered (poll with a fixed msg_id, 1..3 generations), with another
+        #      id, or cancels another future; from the result path and from the error path; every
+        #      generation gets its own reply
+        P7, PS, OTH = ["i", 7], ["s", "poll"], ["i", 1001]
+        res0 = lambda mi: ["res", None, [p for p in range(len(PAYLOADS)) if oracle(METHODS[mi][1], p)[0]][0]]
+        n = 0
+        for kind in "pta":
+            for style in "ud":
+                if kind == "a" and style == "u":
+                    continue
+                for gens in (1, 2, 3):
+                    for pid in (P7, PS):
+                        n += 1
+                        mi = n % 6
+                        ops = [["s", mi, pid] for _ in range(gens)]
+                        evs = [["send", mi, [style, ops], pid, kind]]
+                        for g in range(gens + 1):
+                            if style == "d" and g % 2 == 1:
+                                evs.append(["err", pid, [0, -32603, 1][g % 3], g % 4, g % 6])   # error path goes on polling
+                            else:
+                                evs.append(["res", pid, res0(mi)[2]])
+                        evs.append(["res", pid, res0(mi)[2]])                                   # one reply too many: a stray
+                        cases.append({"evs": evs})
+                # other id, cancel of another future, two pollers interleaved, reactive transport
+                mi = n % 6
+                cases.append({"evs": [["send", 6, 1, None, "p"], ["send", mi, [style, [["c", 0], ["s", 6, OTH], ["c", 1]]], P7, kind],
+                                      ["res", P7, res0(mi)[2]], ["res", OTH, 3], ["res", ["u", 0], 3], ["res", P7, res0(mi)[2]]]})
+                cases.append({"evs": [["send", mi, [style, [["s", mi, P7], ["s", mi, P7]]], P7, kind],
+                                      ["send", 6, [style, [["s", 6, PS]]], PS, "p"],
+                                      ["res", PS, 3], ["res", P7, res0(mi)[2]], ["res", P7, res0(mi)[2]], ["err", PS, 0, 0, 0],
+                                      ["res", P7, res0(mi)[2]], ["res", PS, 3]]})
+                cases.append({"evs": [["send", mi, [style, [["s", mi, P7]]], P7, kind, ["w", ["res", res0(mi)[2]]]],
+                                      ["res", P7, res0(mi)[2]], ["res", P7, res0(mi)[2]]]})
+                if kind == "t":
+                    cases.append({"evs": [["send", mi, [style, [["s", mi, P7], ["s", mi, P7]]], P7, kind, ["l", ["res", res0(mi)[2]]]],
+                                          ["res", P7, res0(mi)[2]], ["err", P7, 1, 0, 0], ["res", P7, res0(mi)[2]]]})
+                # the caller cancels a polling request: its add_done_callback fires (re-send), callback= does not
+                cases.append({"evs": [["send", mi, [style, [["s", mi, P7]]], P7, kind], ["cancel", 0],
+                                      ["res", P7, res0(mi)[2]], ["res", P7, res0(mi)[2]]]})
         # (2) k outstanding, one reply each, every order of the replies
         for k in range(1, chk.n(3, 4) + 1):
             for rep in range(chk.n(3, 12)):
@@ -616,7 +723,7 @@ class C05(core.Property):
                 for perm in itertools.permutations(range(k)):
                     cases.append({"evs": sends + [replies[j] for j in perm]})
         # (3) random histories
-        for _ in range(chk.n(1300, 15000)):
+        for _ in range(chk.n(1150, 15000)):
             cases.append(self._random(rng))
         cases = [c for c in cases if wellformed(c)]
         return cases
@@ -632,6 +739,14 @@ class C05(core.Property):
             if rng.random() < given_p and pool:
                 mid = pool.pop()
                 ids.append(mid)
+                if rng.random() < 0.3:
+                    style = "d" if (kind == "a" or rng.random() < 0.5) else "u"
+                    ops = []
+                    for _ in range(rng.randint(1, 3)):
+                        r = rng.random()
+                        ops.append(["c", rng.randrange(k)] if r < 0.25 else
+                                   ["s", ms[j], mid] if r < 0.85 else ["s", ms[j], ["i", 1001 + j]])
+                    cb = [style, ops]
             else:
                 mid = None
                 ids.append(["u", nuu]); nuu += 1
@@ -781,9 +896,13 @@ class C05(core.Property):
             for d1, d2 in zip(impl["trace"], impl["trace"][1:]):
                 if k < len(d1[0]) and d1[0][k][1] > d2[0][k][1]:
                     return False
-        # ids written are pairwise distinct (the guard makes all sent ids distinct)
+        # at every moment the outstanding requests carry pairwise distinct ids (frame k is request k)
         ids = [core.canon(o[0]) for o in impl["out"]]
-        return len(ids) == len(set(ids))
+        for d in impl["trace"]:
+            pend = [ids[k] for k in range(min(len(d[0]), len(ids))) if d[0][k][0] == 0]
+            if len(pend) != len(set(pend)):
+                return False
+        return True
 
     def nontrivial(self, c):
         evs = c["evs"]
